@@ -7,8 +7,8 @@
      P:aceh       Access-Control-Expose-Headers differs
      P:preflight  Access-Control-Allow-Methods / -Headers / -Max-Age differ
      P:allow      the Allow header differs (must be removed exactly on an approved / denied preflight)
-     D:leftover-credentials  a denied preflight did NOT leave the credentials header behind (the spec follows the
-                  code there; without an origin header it grants nothing either way) *)
+     D:leftover-credentials  the credentials header after a DENIED preflight differs (the spec follows the code,
+                  which leaves it behind; without an origin header it grants nothing either way) *)
 EXTENDS Cors, DispatchTrace
 
 Conf(c) == [ao |-> [star |-> c.ao.star, set |-> Range(c.ao.set)], ac |-> [star |-> c.ac.star, set |-> Range(c.ac.set)],
@@ -26,7 +26,7 @@ JudgeCors ==
     IN  IF Ev.obs.bad THEN "P:exception"
         ELSE IF h.acao # out.acao THEN "P:acao"
         ELSE IF h.acac # out.acac
-             THEN (IF out.acac = "true" /\ out.acao = ABSENT /\ x.hdr.acac = ABSENT THEN "D:leftover-credentials" ELSE "P:acac")
+             THEN (IF IsPreflight(rq, x) /\ Allowed(cfg, rq.origin) /\ ~x.hdr.allow.has THEN "D:leftover-credentials" ELSE "P:acac")
         ELSE IF h.aceh # out.aceh THEN "P:aceh"
         ELSE IF ObsSet(h.acam) # out.acam \/ h.acah # out.acah \/ h.acma # out.acma THEN "P:preflight"
         ELSE IF ObsSet(h.allow) # out.allow THEN "P:allow"
